@@ -113,7 +113,7 @@ class StringLiteral(_TokFn):
 
 class BlockCommentStart(_TokFn):
     target = "pyab_experiment.language.lexer:ExperimentLexer.BLOCK_COMMENT_START"
-    props = ("C02", "C05", "C06", "C07", "C08", "C12", "C13", "C15")      # the comment machinery is part of every text
+    props = ("C02", "C05", "C06", "C07", "C08", "C09", "C12", "C13", "C15")      # the comment machinery is part of every text
 
     def ensures(self, a, r, p):
         st = [e for e in p.effects if e[0] == "lexer-state"]
@@ -127,7 +127,7 @@ class BlockCommentStart(_TokFn):
 class BlockCommentEnd(_TokFn):
     target = "pyab_experiment.language.lexer:BlockComment.BLOCK_COMMENT_END"
     cls = BC
-    props = ("C02", "C05", "C06", "C07", "C08", "C12", "C13", "C15")      # the comment machinery is part of every text
+    props = ("C02", "C05", "C06", "C07", "C08", "C09", "C12", "C13", "C15")      # the comment machinery is part of every text
 
     def ensures(self, a, r, p):
         st = [e for e in p.effects if e[0] == "lexer-state"]
@@ -141,7 +141,7 @@ class BlockCommentEnd(_TokFn):
 class BlockCommentContent(_TokFn):
     target = "pyab_experiment.language.lexer:BlockComment.t_block_comment_content"
     cls = BC
-    props = ("C02", "C05", "C06", "C07", "C08", "C12", "C13", "C15")      # the comment machinery is part of every text
+    props = ("C02", "C05", "C06", "C07", "C08", "C09", "C12", "C13", "C15")      # the comment machinery is part of every text
 
     def ensures(self, a, r, p):
         return [("emits-no-token", z3.BoolVal(isinstance(r, PyNoneT)))]
@@ -152,7 +152,7 @@ class BlockCommentContent(_TokFn):
 
 class IgnoreNewlineMain(_TokFn):
     target = "pyab_experiment.language.lexer:ExperimentLexer.ignore_newline"
-    props = ("C02", "C05", "C06", "C07", "C08", "C12", "C13", "C15")      # the comment machinery is part of every text
+    props = ("C02", "C05", "C06", "C07", "C08", "C09", "C12", "C13", "C15")      # the comment machinery is part of every text
 
     def ensures(self, a, r, p):
         return [("emits-no-token", z3.BoolVal(isinstance(r, PyNoneT)))]
